@@ -847,3 +847,125 @@ def inplace_rewrites_truncate(ctx, clause, modules=('datadir', 'metadata', 'util
                f'no text/JSON file is rewritten through a non-truncating handle ({n_funcs} functions of '
                f'{list(modules)} scanned; classifier verified on its embedded positive example)')
     return n_sites
+
+
+# ---------------------------------------------------------------------------------------------------------------
+# Memoised results are not mutated in place (round 5, seeded change C01-13): a function wrapped by lru_cache/cache
+# hands every caller the same object; a caller that advances it in place (`i += chunklen`) leaves the next call —
+# in the same process, with the same arguments — a result that no longer starts where it should.  Expected count on
+# the pinned tree: zero memoised functions; the classifier is verified on an embedded positive example.
+
+_MEMO_NAMES = {'lru_cache', 'cache', 'functools.lru_cache', 'functools.cache', 'cached_property', 'functools.cached_property'}
+_MEMO_EXAMPLE = '''
+def _grid(shape):
+    return np.zeros(shape)
+
+_cachedgrid = lru_cache(maxsize=16)(_grid)
+
+@lru_cache
+def _grid2(shape):
+    return np.zeros(shape)
+
+def gen(shape, n):
+    i = _cachedgrid(shape)
+    for _ in range(n):
+        yield f(i)
+        i += shape[0]
+
+def gen2(shape, n):
+    i = _grid2(shape).copy()
+    for _ in range(n):
+        yield f(i)
+        i += shape[0]
+
+def gen3(shape):
+    j = _grid2(shape)
+    j[0] = 1
+    return j
+'''
+
+
+def memo_names(tree):
+    """Names bound at module level to a memoising wrapper: decorated functions and `x = lru_cache(...)(f)`."""
+    out = {}
+    for st in tree.body:
+        if isinstance(st, (ast.FunctionDef, ast.AsyncFunctionDef)):
+            for d in st.decorator_list:
+                dn = dotted(d.func) if isinstance(d, ast.Call) else dotted(d)
+                if dn in _MEMO_NAMES:
+                    out[st.name] = st
+        elif isinstance(st, ast.Assign) and isinstance(st.value, ast.Call):
+            fn = st.value.func
+            dn = dotted(fn.func) if isinstance(fn, ast.Call) else dotted(fn)
+            if dn in _MEMO_NAMES and st.value.args:
+                for t in st.targets:
+                    if isinstance(t, ast.Name):
+                        out[t.id] = st
+    return out
+
+
+def memo_mutations(tree):
+    """[(function node, mutating node, variable, memo name)]: a local bound directly to the result of a memoised
+    callable and then changed in place."""
+    memo = memo_names(tree)
+    hits = []
+    if not memo:
+        return memo, hits
+    INPLACE = {'fill', 'sort', 'resize', 'put', 'itemset', 'partition', 'setfield', 'byteswap', 'append', 'extend',
+               'update', 'clear', 'pop', 'insert', 'remove'}
+    for f in ast.walk(tree):
+        if not isinstance(f, (ast.FunctionDef, ast.AsyncFunctionDef)):
+            continue
+        bound = {}
+        for n in own_nodes(f):
+            if isinstance(n, ast.Assign) and len(n.targets) == 1 and isinstance(n.targets[0], ast.Name):
+                vals = [n.value] + ([n.value.body, n.value.orelse] if isinstance(n.value, ast.IfExp) else [])
+                for v in vals:
+                    if isinstance(v, ast.Call) and (dotted(v.func) or '') in memo:
+                        bound[n.targets[0].id] = dotted(v.func)
+        if not bound:
+            continue
+        for n in own_nodes(f):
+            var = None
+            if isinstance(n, ast.AugAssign):
+                t = n.target
+                while isinstance(t, (ast.Subscript, ast.Attribute)):
+                    t = t.value
+                if isinstance(t, ast.Name):
+                    var = t.id
+            elif isinstance(n, ast.Subscript) and isinstance(n.ctx, (ast.Store, ast.Del)):
+                t = n.value
+                while isinstance(t, (ast.Subscript, ast.Attribute)):
+                    t = t.value
+                if isinstance(t, ast.Name):
+                    var = t.id
+            elif isinstance(n, ast.Call) and isinstance(n.func, ast.Attribute) and n.func.attr in INPLACE and \
+                    isinstance(n.func.value, ast.Name):
+                var = n.func.value.id
+            if var in bound:
+                hits.append((f, n, var, bound[var]))
+    return memo, hits
+
+
+def memoised_results_not_mutated(ctx, clause, modules=('array', 'raggedarray', 'utils', 'numtype')):
+    ex = ast.parse(_MEMO_EXAMPLE)
+    m, h = memo_mutations(ex)
+    if sorted(m) != ['_cachedgrid', '_grid2'] or sorted((f.name, v) for f, _n, v, _m in h) != [('gen', 'i'), ('gen3', 'j')]:
+        raise AnalysisError(f'memoisation classifier fails its embedded example: {sorted(m)} {[(f.name, v) for f, _n, v, _m in h]}')
+    nmemo = 0
+    for mn in modules:
+        mod = ctx.repo.module(mn)
+        memo, hits = memo_mutations(mod.tree)
+        nmemo += len(memo)
+        for fnode, node, var, name in hits:
+            owner = next((g for g in mod.all_funcs() if g.node is fnode), None)
+            ctx.bad('R-OWN', clause, owner if owner is not None else f'darr/{mn}.py', node, f'memo-mutated::{name}',
+                    f'the result of the memoised `{name}` is not changed in place',
+                    detail=f'`{var}` is the object the cache hands to every caller; `{norm(node)[:50]}` changes it, so a later '
+                           f'call with the same arguments in the same process starts from the advanced state (e.g. the '
+                           f'fill-function index grid no longer starts at 0 and the result depends on chunklen and on history)')
+        if not hits:
+            ctx.ok('R-OWN', clause, f'darr/{mn}.py', None, f'memo-mutated::{mn}',
+                   f'no result of a memoised function of {mn}.py is changed in place ({len(memo)} memoised callable(s): '
+                   f'{sorted(memo)}; classifier verified on its embedded positive example)')
+    return nmemo
